@@ -820,12 +820,26 @@ class Interp(object):
         if isinstance(lst, ListVal):
             parts = []
             first = True
+            septxt = ''
+            if isinstance(sep, Str) and len(sep.parts) == 1 and isinstance(sep.parts[0], str):
+                septxt = sep.parts[0].strip()
+            minus = septxt == '-'
             for it in lst.items:
                 if it[0] == 'item':
                     s = self.to_str(it[1])
-                    parts.append(s if first else (lit('+') + s if not (s.startswith_lit('+') or s.startswith_lit('-')) else s))
+                    if first:
+                        parts.append(s)
+                    elif minus:
+                        parts.append(lit('-') + s)
+                    else:
+                        parts.append(lit('+') + s if not (s.startswith_lit('+') or s.startswith_lit('-')) else s)
                 else:
-                    parts.append(Str([Hole('fold', it[1], self.to_str(it[3]), tuple(it[2]))]))
+                    item = self.to_str(it[3])
+                    if minus:
+                        if first:
+                            return Str([Hole('opaque', 'join(%s)' % lst.show())])
+                        item = lit('-') + item
+                    parts.append(Str([Hole('fold', it[1], item, tuple(it[2]))]))
                 first = False
             return Str(parts)
         return Str([Hole('opaque', 'join(%s)' % (lst.show() if isinstance(lst, Val) else lst))])
@@ -877,9 +891,29 @@ class Interp(object):
         self.opaque_uses.append(('%s:%d' % (fr.func.module.rel, e.lineno), unparse(e)[:80]))
         return Opaque(unparse(e))
 
+    EMITTING = ('AddVariable', 'AddVariableFromEquation', 'SetEquationRightHandSide', 'AddTermToEquation', 'AddCashFlow',
+                'RegisterCashFlow', 'SetExogenous', 'AddInitialCondition', 'AddCashFlowIncomeExclusion')
+
     def intrinsic(self, nm, role, e, fr, skip_first=False):
         args = e.args[1:] if skip_first else e.args
         kw = {k.arg: k.value for k in e.keywords if k.arg}
+        if nm in self.EMITTING:
+            # an argument whose value was chosen by an earlier branch: the call is recorded once per branch, under the
+            # condition of that branch (the same effects as when the call is written inside both branches)
+            for a in list(args) + list(kw.values()):
+                if isinstance(a, ast.Name) and isinstance(fr.env.get(a.id), Phi) and isinstance(fr.env[a.id].guard, Guard) and \
+                        getattr(fr.env[a.id], '_join', False):
+                    phi = fr.env[a.id]
+                    res = NONE
+                    for val, g in ((phi.a, phi.guard), (phi.b, phi.guard.neg())):
+                        fr.env[a.id] = val
+                        self.guards.append(g)
+                        try:
+                            res = self.intrinsic(nm, role, e, fr, skip_first)
+                        finally:
+                            self.guards.pop()
+                            fr.env[a.id] = phi
+                    return res
 
         def A(i, name=None, default=None):
             if i is not None and i < len(args):
@@ -1185,6 +1219,7 @@ class Interp(object):
                 out[k] = a
             else:
                 out[k] = Phi(c, a, b)
+                out[k]._join = True       # chosen by an if statement of the function itself (see `intrinsic`)
         return out
 
     def for_stmt(self, s, fr):
